@@ -5,6 +5,9 @@
 //   push <Class>                append a default-constructed layer (operator/=)
 //   raw x<bytes>                append a RawPDU payload
 //   set <layer> <field> <value> call the setter of the field on layer #<layer> -> "P <view>" | "E <code>" | "N" (no such setter)
+//   aopt <layer> <code> x<data> add_option(option(code, data))     -> "P 1 <view>"
+//   ropt <layer> <code>         remove_option(code)                 -> "P 0|1 <view>"
+//   sopt <layer> <code>         search_option(code)                 -> "O 0" | "O 1 x<data>"
 //   val <layer> <field> <value> the printed form of the argument set would pass -> "V <value>"
 //   ser                         size() + serialize()                   -> "S <size> x<bytes> [M <type> <what> <offset>]*"  (M = hook H1 reports)
 //   rt <Entry>                  serialize, re-parse with Entry, serialize again -> "Q <view>" then "S2 <size> x<bytes>"
@@ -37,6 +40,33 @@ static std::string ser(PDU& p, const char* tag) {
     os << tag << " " << sz << " " << hex(b);
     for (size_t i = 0; i < g_monitor.size(); ++i) os << g_monitor[i];
     return os.str();
+}
+
+
+// raw option access, uniform over the option-bearing layers: add / remove first / search first
+template <class L, class Id> static bool opt_add(PDU* l, Id id, const bytes& d) {
+    L* p = dynamic_cast<L*>(l); if (!p) return false;
+    p->add_option(typename L::option(id, d.begin(), d.end())); return true;
+}
+template <class L, class Id> static int opt_remove(PDU* l, Id id) { L* p = dynamic_cast<L*>(l); return p ? (p->remove_option(id) ? 1 : 0) : -1; }
+template <class L, class Id> static int opt_search(PDU* l, Id id, std::string& out) {
+    L* p = dynamic_cast<L*>(l); if (!p) return -1;
+    const typename L::option* o = p->search_option(id);
+    if (!o) return 0;
+    out = hex(o->data_ptr(), o->data_size()); return 1;
+}
+static IP::option_identifier ip_id(unsigned code) { return IP::option_identifier((IP::OptionNumber)(code & 0x1f), (IP::OptionClass)((code >> 5) & 3), (code >> 7) & 1); }
+// op: 0 add, 1 remove, 2 search; returns -1 unsupported layer, else the operation's result
+static int opt_op(int op, PDU* l, unsigned code, const bytes& d, std::string& out) {
+#define OPT_CASE(L, ID) if (dynamic_cast<L*>(l)) { if (op == 0) return opt_add<L>(l, ID, d) ? 1 : -1; if (op == 1) return opt_remove<L>(l, ID); return opt_search<L>(l, ID, out); }
+    OPT_CASE(TCP, (TCP::OptionTypes)code)
+    OPT_CASE(IP, ip_id(code))
+    OPT_CASE(DHCP, (DHCP::OptionTypes)code)
+    OPT_CASE(DHCPv6, (DHCPv6::OptionTypes)code)
+    OPT_CASE(ICMPv6, (ICMPv6::OptionTypes)code)
+    OPT_CASE(Dot11, (Dot11::OptionTypes)code)
+#undef OPT_CASE
+    return -1;
 }
 
 static void run(const Script& s) {
@@ -90,6 +120,14 @@ static void run(const Script& s) {
                 std::string cls = one.str().substr(0, one.str().find(' '));
                 if (!vacc::set_field(*l, cls, t[2], num(t[3]))) { printf("N\n"); continue; }
                 printf("P %s\n", vacc::describe(*pkt).c_str());
+            } else if ((op == "aopt" || op == "ropt" || op == "sopt") && pkt) {
+                PDU* l = layer_at(pkt.get(), (int)num(t[1]));
+                if (!l) { printf("N\n"); continue; }
+                std::string found;
+                int r = opt_op(op == "aopt" ? 0 : op == "ropt" ? 1 : 2, l, (unsigned)num(t[2]), t.size() > 3 ? unhex(t[3]) : bytes(), found);
+                if (r < 0) { printf("N\n"); continue; }
+                if (op == "sopt") printf("O %d %s\n", r, found.c_str());
+                else printf("P %d %s\n", r, vacc::describe(*pkt).c_str());
             } else if (op == "val" && pkt) {
                 PDU* l = layer_at(pkt.get(), (int)num(t[1]));
                 if (!l) { printf("N\n"); continue; }
